@@ -2,7 +2,7 @@
 From Coq Require Import List ZArith NArith Bool Lia Sorting.Sorted.
 From RRSS Require Import Base.Outcome Base.Chars Base.F64 Base.F64Text Exec.Ops Front.Ast Front.Token Front.Lexer Front.Parser.
 From RRSS Require Import Front.ParseErrorText.
-From RRSS Require Import Proofs.LexBasics Proofs.LexPos Proofs.LexSpec Proofs.LexStream Proofs.LexCorollaries Proofs.ParseSafe.
+From RRSS Require Import Proofs.LexBasics Proofs.LexPos Proofs.LexSpec Proofs.LexStream Proofs.LexCorollaries Proofs.ParseSafe Proofs.ParseFuel.
 Import ListNotations.
 Open Scope N_scope.
 
@@ -192,4 +192,20 @@ Proof.
   unfold parse_capitalized_identifier. cbn [length capitalized_words]. rewrite H. cbn [length capitalized_words]. rewrite Hc. cbn [bind].
   unfold parse_simple_identifier. rewrite Hm. cbn [bind].
   unfold parse_literal_expression. rewrite Hc. rewrite Hm. unfold fail, new_error. rewrite Hc. reflexivity.
+Qed.
+
+(** * C01, complete: every source shorter than 4 GiB yields a program or a parse error that renders —
+    no panic, no unchecked access, and the model's fuel (every loop consumes a token) never runs out *)
+Theorem parse_total prof src :
+  byte_len src < u32_limit ->
+  (exists p, parse prof src = ParseOk p) \/
+  (exists e text, parse prof src = ParseErr e /\ parse_error_display e = Ok text).
+Proof.
+  intro Hb. pose proof (parse_never_crashes prof src Hb) as H1. pose proof (parse_fuel_suffices prof src) as H2.
+  destruct (lex_total prof src Hb) as [pts Hl].
+  destruct (parse prof src) as [p|e|st ub|].
+  - left. eauto.
+  - right. destruct H1 as [text Ht]. eauto.
+  - contradiction.
+  - rewrite Hl in H2. destruct H2; discriminate.
 Qed.
